@@ -486,9 +486,11 @@ func checkSensorReaders(c *Ctx, r *Report) {
 			r.OK(name+"|linearised reader", ctor.Pos(), "linearised reader only on its class (dispatch evaluated)")
 			r.OK(name+"|unsupported", ctor.Pos(), "unsupported linearisation is an error (dispatch evaluated)")
 		}
-		return
 	}
 	for _, ret := range returnsOf(ctor) {
+		if linIf == nil || lisedIf == nil {
+			break // decided by the dispatch evaluation above
+		}
 		call, isCall := ret.Results[0].(*ssa.Extract)
 		_ = call
 		v := ret.Results[0]
@@ -535,7 +537,9 @@ func checkSensorReaders(c *Ctx, r *Report) {
 			okDef = true
 		}
 	}
-	r.Check(okDef, name+"|unsupported", ctor.Pos(), "unsupported linearisation is an error", "no error return for non-linear sensors")
+	if linIf != nil && lisedIf != nil {
+		r.Check(okDef, name+"|unsupported", ctor.Pos(), "unsupported linearisation is an error", "no error return for non-linear sensors")
+	}
 
 	// construction never succeeds over a failure: on every path of the exported constructor
 	// (the per-kind constructors are part of its flattened view) that returns a reader, every
@@ -742,7 +746,6 @@ func checkSensorReaders(c *Ctx, r *Report) {
 	})
 	r.Check(okL, c.FnName(lsd)+"|L(linear reading)", lsd.Pos(), "lineariser applied to the linear reader's result", "the linearised reader does not return lineariser.Linearise(linear reading)")
 }
-
 
 // readerDispatch evaluates NewSensorReader with the record's Linearisation pinned: for each
 // representative value, on every feasible path, which of the reader constructors (functions
